@@ -96,6 +96,7 @@ type pfxEngine struct {
 	in      map[*ssa.BasicBlock]pfxState
 	edgeHk  func(pred, succ *ssa.BasicBlock, st pfxState)
 	retired map[*pfxSrc]bool
+	inEdge  map[*ssa.BasicBlock]map[*ssa.BasicBlock]pfxState // per incoming edge, for blocks that test a flag phi
 }
 
 func isErrish(t types.Type) bool {
@@ -330,6 +331,7 @@ func (e *pfxEngine) run(atReturn func(ret *ssa.Return, st pfxState), atBackEdge 
 		return
 	}
 	e.in = map[*ssa.BasicBlock]pfxState{}
+	e.inEdge = map[*ssa.BasicBlock]map[*ssa.BasicBlock]pfxState{}
 	entry := e.fn.Blocks[0]
 	init := pfxState{}
 	for _, s := range e.order {
@@ -346,27 +348,35 @@ func (e *pfxEngine) run(atReturn func(ret *ssa.Return, st pfxState), atBackEdge 
 		b := work[0]
 		work = work[1:]
 		inWork[b] = false
-		st := e.in[b].clone()
-		for _, in := range b.Instrs {
-			switch t := in.(type) {
-			case *ssa.Call:
-				if pc, ok := e.prefix[t]; ok {
-					for s := range e.sourcesOf(pc.recv) {
-						if c, ok := st[s]; ok {
-							c[pc.kind] = shift(c[pc.kind])
-							st[s] = c
+		transfer := func(st pfxState) pfxState {
+			for _, in := range b.Instrs {
+				switch t := in.(type) {
+				case *ssa.Call:
+					if pc, ok := e.prefix[t]; ok {
+						for s := range e.sourcesOf(pc.recv) {
+							if c, ok := st[s]; ok {
+								c[pc.kind] = shift(c[pc.kind])
+								st[s] = c
+							}
 						}
+					} else if s, ok := e.srcs[t]; ok {
+						st[s] = freshCnt(s.keyed)
 					}
-				} else if s, ok := e.srcs[t]; ok {
-					st[s] = freshCnt(s.keyed)
 				}
 			}
+			return st
 		}
-		for _, succ := range b.Succs {
+		st := transfer(e.in[b].clone())
+		for si, succ := range b.Succs {
 			if !e.edgeFeasible(b, succ) {
 				continue
 			}
 			out := st.clone()
+			// the block tests a flag that its predecessors set to a constant (a result pair taken apart again):
+			// what came in with the other constant does not leave through this edge
+			if th := e.threaded(b, si); th != nil {
+				out = transfer(th)
+			}
 			e.emptyOnEdge(b, succ, out)
 			if e.edgeHk != nil {
 				e.edgeHk(b, succ, out)
@@ -382,6 +392,22 @@ func (e *pfxEngine) run(atReturn func(ret *ssa.Return, st pfxState), atBackEdge 
 							}
 						}
 					}
+				}
+			}
+			if e.inEdge[succ] == nil {
+				e.inEdge[succ] = map[*ssa.BasicBlock]pfxState{}
+			}
+			chEdge := false
+			if prev, ok := e.inEdge[succ][b]; ok {
+				_, chEdge = joinState(prev, out.clone())
+			} else {
+				e.inEdge[succ][b] = out.clone()
+				chEdge = true
+			}
+			if chEdge && !inWork[succ] {
+				if _, seen := e.in[succ]; seen {
+					work = append(work, succ)
+					inWork[succ] = true
 				}
 			}
 			cur, ok := e.in[succ]
@@ -691,4 +717,48 @@ func (c *Ctx) alwaysStarError(fn *ssa.Function) bool {
 		return true
 	}
 	return false
+}
+
+// threaded: block b ends in a test of a boolean phi of its own that is a constant on some incoming edges. For the
+// successor si the state is the join of what came in through the edges that agree with that outcome; nil when
+// b is not of that shape.
+func (e *pfxEngine) threaded(b *ssa.BasicBlock, si int) pfxState {
+	if len(b.Instrs) == 0 || len(b.Succs) != 2 || b.Succs[0] == b.Succs[1] {
+		return nil
+	}
+	ifi, ok := b.Instrs[len(b.Instrs)-1].(*ssa.If)
+	if !ok {
+		return nil
+	}
+	g := normGuard(guard{ifi.Cond, si == 0, ifi})
+	p, ok := g.cond.(*ssa.Phi)
+	if !ok || p.Block() != b {
+		return nil
+	}
+	any := false
+	var st pfxState
+	for i, pred := range b.Preds {
+		if k, ok := p.Edges[i].(*ssa.Const); ok && k.Value != nil {
+			any = true
+			if (k.Value.String() == "true") != g.val {
+				continue
+			}
+		}
+		in, ok := e.inEdge[b][pred]
+		if !ok {
+			continue
+		}
+		if st == nil {
+			st = in.clone()
+		} else {
+			joinState(st, in.clone())
+		}
+	}
+	if !any {
+		return nil
+	}
+	if st == nil {
+		st = pfxState{}
+	}
+	return st
 }
